@@ -198,6 +198,7 @@ func (c ProgCfg) plant(r *Rand, doc any) (any, string) {
 		{c.Env, c.plantEnv}, {c.Escape, c.plantEscape}, {c.Required, c.plantRequired},
 		{c.PBad > 0, c.plantBad},
 		{c.PBad > 0, c.plantSoup},
+		{(c.Output || c.Encode || c.DocRepeat) && c.Tree.OddKeyP > 0, c.plantKeyOrder},
 	}
 	var enabled []pl
 	for _, p := range all {
@@ -495,6 +496,52 @@ func (c ProgCfg) plantOutput(r *Rand, doc any) (any, string) {
 	v, _ := Get(doc, h)
 	v.(map[string]any)["$output"] = val
 	return doc, "output-map"
+}
+
+// plantKeyOrder puts an order-sensitive consumer (several outputs, values /
+// tolist / flags, a named $repeat) over keys that a looser comparison than
+// string equality takes for equal: whatever orders them must not tie.
+func (c ProgCfg) plantKeyOrder(r *Rand, doc any) (any, string) {
+	ms := MapPositions(doc)
+	if len(ms) == 0 {
+		return doc, ""
+	}
+	h := PickAny(r, ms)
+	v, _ := Get(doc, h)
+	m := v.(map[string]any)
+	fam := PickAny(r, KeyFamilies)
+	switch r.Intn(3) {
+	case 0:
+		for i, k := range fam {
+			m[k] = map[string]any{"$output": true, "n": i}
+		}
+		return doc, "keyorder-output"
+	case 1:
+		e := map[string]any{"$encode": r.Pick("values", "tolist:=", "flags", "tolist::")}
+		for i, k := range fam {
+			if r.Chance(0.5) {
+				e[k] = i
+			} else {
+				e[k] = map[string]any{"n": i}
+			}
+		}
+		m[PickAny(r, c.Tree.Keys)] = e
+		return doc, "keyorder-encode"
+	default:
+		root, ok := doc.(map[string]any)
+		if !ok {
+			return doc, ""
+		}
+		rep := map[string]any{}
+		tmpl := ""
+		for _, k := range fam {
+			rep[k] = 2
+			tmpl += "{$repeat:" + k + "}"
+		}
+		root["$repeat"] = rep
+		root[PickAny(r, c.Tree.Keys)] = `$"` + tmpl + `"`
+		return doc, "keyorder-repeat"
+	}
 }
 
 func (c ProgCfg) plantEncode(r *Rand, doc any) (any, string) {
